@@ -7,13 +7,13 @@ Import LC LCS.
 Module C15.
 Definition case := LC.case.
 
-Definition step_spec (c : cfgT) (w : wobs) (s : step) : bool :=
-  if e_pretend (s_env s) then
-    unchanged w s && match s_oplog s with [] => true | _ => false end
-    && (s_nextid s =? ks_nextid (wo_ks w)) && (s_nextdev s =? ks_nextdev (wo_ks w))
+Definition step_spec (c : cfgT) (w : wobs) (v : sview) : bool :=
+  if e_pretend (v_env v) then
+    unchanged w v && match v_log v with [] => true | _ => false end
+    && (ks_nextid (wo_ks (v_after v)) =? ks_nextid (wo_ks w)) && (ks_nextdev (wo_ks (v_after v)) =? ks_nextdev (wo_ks w))
   else true.
 
-Definition spec (c : case) : bool := along (step_spec (c_cfg c)) (w0 c) (c_steps c).
+Definition spec (c : case) : bool := along_views (step_spec (c_cfg c)) (w0 c) (c_steps c).
 Definition wf := LC.wf.
 Definition kf (c : case) : N := 0.
 Definition verdict (c : case) : N := mkverdict (wf c) (LC.corr c) (spec c) (kf c).
